@@ -216,9 +216,11 @@ def all_subsets(n):
 
 
 # ----------------------------------------------------------------------------- running
-def omp_env(t):
-    # passive waiting: idle libgomp threads must not spin (10 harness processes x 16 threads share the machine)
-    return {"OMP_NUM_THREADS": str(t), "OMP_DYNAMIC": "false", "OMP_WAIT_POLICY": "passive"}
+def omp_env(t, alarm=60):
+    # passive waiting: idle libgomp threads must not spin (10 harness processes x 16 threads share the machine);
+    # C04_CASE_ALARM: per-case watchdog of the harness (a hang becomes the observation abort:timeout)
+    return {"OMP_NUM_THREADS": str(t), "OMP_DYNAMIC": "false", "OMP_WAIT_POLICY": "passive",
+            "C04_CASE_ALARM": str(alarm)}
 
 
 def parallel(fn, items, workers=10):
@@ -372,7 +374,7 @@ def judge_geo(ctx, bins, cases, label, threads=THREADS, shrink_budget=120):
 
 
 def geo_fails(ctx, bins, c, b, t, clause):
-    out = ctx.run_impl_cases(bins[b], [c.line()], env=omp_env(t))
+    out = ctx.run_impl_cases(bins[b], [c.line()], env=omp_env(t, alarm=5))
     if not out or out[0].startswith("abort:"):
         return False
     v = model_lines(ctx, [c.oracle_line(out[0])])
@@ -591,7 +593,7 @@ def judge_iso(ctx, bins, cases, threads):
 
 
 def iso_bad(ctx, bins, c):
-    o = ctx.run_impl_cases(bins["pq"], [c.line()], env=omp_env(1))
+    o = ctx.run_impl_cases(bins["pq"], [c.line()], env=omp_env(1, alarm=10))
     if not o or o[0].startswith("abort:") or o[0].startswith("throw:"):
         return False
     f = dict(t.split("=", 1) for t in o[0].split() if "=" in t)
